@@ -380,3 +380,39 @@ pub fn run_c11(r: &mut Report) {
         r.case("external-sibling-member-order", json!({"names": names.len()}), "a document signed over its reference canonical bytes outside the library parses and verifies", obs.clone(), obs == "verified");
     }
 }
+
+/// C09 only: documents whose member names collide
+pub fn collisions(r: &mut Report) {
+    // member names that collide: an extra byproduct field named like a built-in one (with the built-in one set or not); whatever the
+    // library makes of it, what it writes (either layout) it reads back and verifies, and both layouts carry the same document
+    {
+        use in_toto::interchange::{DataInterchange, Json, JsonPretty};
+        let k = key(1);
+        let mut bad: Vec<String> = vec![];
+        let mut bad_rv: Vec<String> = vec![];
+        let mut n = 0;
+        for name in ["stdout", "stderr", "return-value", "Stdout", "other"] { for builtin_set in [true, false] { for via_new in [true, false] {
+            let mut bp = ByProducts::new();
+            if builtin_set { bp = bp.set_stdout("real out".into()).set_stderr("real err".into()).set_return_value(0); }
+            bp = bp.set_other_field(name.to_string(), "extra".to_string());
+            let link = LinkMetadataBuilder::new().name("n".into()).byproducts(bp).build().unwrap();
+            let md = MetadataWrapper::Link(link);
+            let mb = if via_new { Metablock::new(md, &[&k]).unwrap() } else { in_toto::models::MetablockBuilder::from_metadata(md.into_trait()).sign(&[&k]).unwrap().build() };
+            let mut docs: Vec<serde_json::Value> = vec![];
+            for pretty in [false, true] {
+                n += 1;
+                let mut w = vec![];
+                let wrote = if pretty { no_panic(|| JsonPretty::to_writer(&mut w, &mb)).map(|x| x.is_ok()) } else { no_panic(|| Json::to_writer(&mut w, &mb)).map(|x| x.is_ok()) };
+                let back = if pretty { JsonPretty::from_slice::<Metablock>(&w).map_err(|e| e.to_string()) } else { Json::from_slice::<Metablock>(&w).map_err(|e| e.to_string()) };
+                let ok = wrote == Ok(true) && matches!(&back, Ok(b) if matches!(no_panic(|| b.verify(1, [k.public()])), Ok(Ok(_))));
+                // (a text member named `return-value` replaces the numeric one on the wire: reported under its own id)
+                let sink = if name == "return-value" { &mut bad_rv } else { &mut bad };
+                if !ok && sink.len() < 6 { sink.push(format!("extra field {:?} (built-in members set: {}, via_new {}) pretty={} wrote={:?} back={:?}", name, builtin_set, via_new, pretty, wrote, back.as_ref().map(|_| "parsed").map_err(|e| e.chars().take(80).collect::<String>()))); }
+                if let Ok(b) = &back { docs.push(serde_json::to_value(b).unwrap_or_default()); }
+            }
+            if docs.len() == 2 && docs[0] != docs[1] && bad.len() < 6 { bad.push(format!("extra field {:?} (built-in members set: {}): the two layouts carry different documents", name, builtin_set)); }
+        } } }
+        r.case("colliding-member-names", json!({"documents": n}), "written, read back, verified; both layouts agree", format!("{:?}", bad), bad.is_empty());
+        r.case("extra-byproduct-named-return-value", json!({"extra_field": {"return-value": "extra"}, "documents": 8}), "written, read back, verified", format!("{:?}", bad_rv), bad_rv.is_empty());
+    }
+}
